@@ -21,11 +21,14 @@ structure BW where
   out : Bytes := []            -- bytes on stdout so far
   deriving Repr, DecidableEq, Inhabited
 
+/-- what `BufferWriter::print` writes after the separator: `stream.write_all(b"\n")` (source-anchored) -/
+abbrev bwTerminator : Nat := '\n'.toNat
+
 /-- `BufferWriter::print(&buf)` (under the stream lock, so atomic). -/
 def bwPrint (sep : Option Bytes) (st : BW) (buf : Bytes) : BW :=
   if buf.isEmpty then st else
   let out := match sep with
-    | some s => if st.printed then st.out ++ s ++ [10] else st.out
+    | some s => if st.printed then st.out ++ s ++ [bwTerminator] else st.out
     | none => st.out
   { printed := true, out := out ++ buf }
 
@@ -106,12 +109,15 @@ def outFilesPar (lines : List Bytes) : Bytes := lines.flatten
 
 /-! ### `hiargs.rs` -/
 
+/-- `available_parallelism().map_or(1, |n| n.get()).min(12)` (source-anchored) -/
+abbrev maxDefaultThreads : Nat := 12
+
 /-- `HiArgs::from_low_args`: `threads`. -/
 def threads (sortSome oneFile : Bool) (low : Option Nat) (avail : Nat) : Nat :=
   if sortSome || oneFile then 1
   else match low with
     | some t => t
-    | none => min avail 12
+    | none => min avail maxDefaultThreads
 
 inductive OutMode where
   | standard | other
